@@ -1261,13 +1261,15 @@ impl<Sink: TokenSink> Tokenizer<Sink> {
             states::BeforeAttributeValue => loop {
                 match peek!(self, input) {
                     '\t' | '\x0C' | ' ' => go!(self: discard_char input),
-                    // Line breaks go through the input preprocessor so that they are normalized
-                    // and counted. If it skipped the LF of a CRLF pair it hands back the character
-                    // after it, which has to be looked at again.
+                    // The LF of a CRLF pair was already counted with its CR.
+                    '\n' if self.ignore_lf.get() => {
+                        self.ignore_lf.set(false);
+                        go!(self: discard_char input)
+                    },
+                    // Other line breaks go through the input preprocessor so that they are
+                    // normalized and counted.
                     '\n' | '\r' => {
-                        if get_char!(self, input) != '\n' {
-                            self.reconsume.set(true);
-                        }
+                        get_char!(self, input);
                     },
                     '"' => go!(self: discard_char input; to State::AttributeValue(DoubleQuoted)),
                     '\'' => go!(self: discard_char input; to State::AttributeValue(SingleQuoted)),
